@@ -25,7 +25,7 @@ ASSUMPTIONS = [
 COMPONENTS = {'real': ['yldprolog.engine query/load_script_from_string/load_script_from_file/register_function/chain_functions/assert_fact/clear', 'compiler output for the snippets'],
               'stub': ['file system seen by load_script_from_file (in-memory fake open, injects I/O errors)', 'native predicates (tagged answers)'],
               'oracle': ['definition-table model: per name/arity facts first, then the chain of definitions registered for exactly that arity, variadic only if none, each definition with its own cut']}
-REQUIRED_PROBES = ('readback_first_argument_bound_over_many_facts', 'op_assertbulk', 'readback_through_meta_calls', 'op_reg_decorated', 'op_reg_star-rest', 'assert_with_atom_object_not_current', 'op_reg_partial', 'op_reg_bound-method', 'op_reg_callable-object', 'op_regfail', 'suspended_call_resumed_after_change', 'op_load_overwrite', 'op_load_append', 'op_loadfail_syntax', 'op_loadfail_raise', 'op_loadfail_io', 'op_reg_inferred', 'op_reg_explicit',
+REQUIRED_PROBES = ('same_script_loaded_by_another_engine_first', 'readback_first_argument_bound_over_many_facts', 'op_assertbulk', 'readback_through_meta_calls', 'op_reg_decorated', 'op_reg_star-rest', 'assert_with_atom_object_not_current', 'op_reg_partial', 'op_reg_bound-method', 'op_reg_callable-object', 'op_regfail', 'suspended_call_resumed_after_change', 'op_load_overwrite', 'op_load_append', 'op_loadfail_syntax', 'op_loadfail_raise', 'op_loadfail_io', 'op_reg_inferred', 'op_reg_explicit',
                    'op_reg_variadic', 'op_assert', 'op_clear', 'chain_of_2plus_definitions', 'variadic_used', 'variadic_shadowed_by_exact', 'reserved_name_registered',
                    'load_via_file')
 
@@ -330,6 +330,22 @@ def execute(plan):
                 return {'predicate': 'call(%s/%d)' % key, 'raises': type(e).__name__}
             if got != want:
                 return {'predicate': 'call(%s/%d)' % key, 'engine': got[:10], 'model': want[:10]}
+            # ... and by call/N with one goal term per predicate kept by the caller and used again at every read-back
+            if key not in kept_goals:
+                gv_ = [yp.variable() for _ in range(key[1] - 1)]
+                kept_goals[key] = (yp.functor(key[0], gv_) if gv_ else yp.atom(key[0]), gv_)
+            goal_, gv_ = kept_goals[key]
+            last_ = yp.variable()
+            try:
+                got = []
+                for _ in yp.query('call', [goal_, last_]):
+                    got.append([to_python(v) for v in gv_ + [last_]])
+                    if len(got) >= READ_CAP:
+                        break
+            except Exception as e:
+                return {'predicate': 'call(<kept goal %s/%d>, X)' % (key[0], key[1] - 1), 'raises': type(e).__name__}
+            if got != want:
+                return {'predicate': 'call(<kept goal %s/%d>, X)' % (key[0], key[1] - 1), 'engine': got[:10], 'model': want[:10]}
             vs = [yp.variable() for _ in range(key[1])]
             bag = yp.variable()
             try:
@@ -355,6 +371,7 @@ def execute(plan):
     kept = {}
     other = YP()
     opno = [0]
+    kept_goals = {}
     suspended = []       # (generator, variables, answers expected when the call was made, next index)
     for op in plan['ops']:
         kind = op[0]
@@ -398,6 +415,10 @@ def execute(plan):
             if kind == 'load':
                 _, i, ow, via = op
                 log.count('op_load_overwrite' if ow else 'op_load_append')
+                if i % 2 == 0 and via != 'file':
+                    # another engine instance in the same process has loaded the very same text under the same name before
+                    other.load_script_from_string(_CODE[i], fn='<sim:snippet%d>' % i, overwrite=True)
+                    log.count('same_script_loaded_by_another_engine_first')
                 if via == 'file':
                     log.count('load_via_file')
                     fn = 'snippet%d.py' % i
